@@ -788,41 +788,101 @@ fn unit_src(u: &Value) -> String {
     }
 }
 
-pub fn gen_macros(asm: &Asm, sh: &mut Shards, path: &str) {
-    let text = std::fs::read_to_string(path).expect("macro case file");
+/// one macro case -> its event (runs in the child process: an expansion that never ends overflows the stack)
+fn macro_case_event(asm: &Asm, j: &Value) -> Value {
     let header = "t:\ntt:\nttt:\n";
-    for line in text.lines() {
-        if line.trim().is_empty() {
-            continue;
-        }
-        let j: Value = serde_json::from_str(line).expect("macro case json");
-        let mut src = String::from(header);
-        for m in j["lib"].as_array().unwrap() {
-            let params: Vec<String> = m["params"].as_array().unwrap().iter().map(|p| p.as_str().unwrap().to_string()).collect();
-            let body: Vec<String> = m["body"].as_array().unwrap().iter().map(unit_src).collect();
-            src.push_str(&format!("macro {}({}) -> {} <-\n", m["name"].as_str().unwrap(), params.join(", "), body.join(" ")));
-        }
-        let uargs: Vec<String> = j["use"]["args"].as_array().unwrap().iter().map(toks).collect();
-        let use_text = format!("{}({})", j["use"]["name"].as_str().unwrap(), uargs.join(", "));
-        src.push_str("start:\n");
-        src.push_str(&use_text);
-        src.push_str("\nnop\n");
-        let mut reference = String::from(header);
-        reference.push_str("start:\n");
-        for ins in j["code"].as_array().unwrap() {
-            reference.push_str(&toks(ins));
-            reference.push('\n');
-        }
-        reference.push_str("nop\n");
-        let a = asm.assemble(&src);
-        let b = asm.assemble(&reference);
-        let (macro_ok, macro_code, macro_err) = match &a { Ok(x) => (true, x.out.code.clone(), String::new()), Err(e) => (false, vec![], e.chars().take(200).collect()) };
-        let (ref_ok, ref_code) = match &b { Ok(x) => (true, x.out.code.clone()), Err(_) => (false, vec![]) };
-        let err = j["err"].as_str().unwrap_or("");
-        sh.count(&format!("macro-case:{}", if err.is_empty() { "expands" } else { err }), 1);
-        sh.unit(&[json!({"ev":"macro","err":err,"macro_ok":macro_ok,"ref_ok":ref_ok,"same":macro_code == ref_code,
-                         "src":src,"macro_code":macro_code,"ref_code":ref_code,"diag":macro_err})]);
+    let mut src = String::from(header);
+    for m in j["lib"].as_array().unwrap() {
+        let params: Vec<String> = m["params"].as_array().unwrap().iter().map(|p| p.as_str().unwrap().to_string()).collect();
+        let body: Vec<String> = m["body"].as_array().unwrap().iter().map(unit_src).collect();
+        src.push_str(&format!("macro {}({}) -> {} <-\n", m["name"].as_str().unwrap(), params.join(", "), body.join(" ")));
     }
+    let uargs: Vec<String> = j["use"]["args"].as_array().unwrap().iter().map(toks).collect();
+    let use_text = format!("{}({})", j["use"]["name"].as_str().unwrap(), uargs.join(", "));
+    src.push_str("start:\n");
+    src.push_str(&use_text);
+    src.push_str("\nnop\n");
+    let mut reference = String::from(header);
+    reference.push_str("start:\n");
+    for ins in j["code"].as_array().unwrap() {
+        reference.push_str(&toks(ins));
+        reference.push('\n');
+    }
+    reference.push_str("nop\n");
+    let a = asm.assemble(&src);
+    let b = asm.assemble(&reference);
+    let (macro_ok, macro_code, macro_err) = match &a { Ok(x) => (true, x.out.code.clone(), String::new()), Err(e) => (false, vec![], e.chars().take(200).collect()) };
+    let (ref_ok, ref_code) = match &b { Ok(x) => (true, x.out.code.clone()), Err(_) => (false, vec![]) };
+    let err = j["err"].as_str().unwrap_or("");
+    json!({"ev":"macro","err":err,"macro_ok":macro_ok,"ref_ok":ref_ok,"same":macro_code == ref_code,
+           "src":src,"macro_code":macro_code,"ref_code":ref_code,"diag":macro_err,"aborted":false})
+}
+
+/// child: `vh macros <cases> <out> <from>` appends one event per case, flushing after each
+pub fn macros_child(cases: &str, out: &str, from: usize) {
+    use std::io::Write;
+    let asm = Asm::new();
+    let text = std::fs::read_to_string(cases).expect("macro case file");
+    let mut f = std::fs::OpenOptions::new().create(true).append(true).open(out).unwrap();
+    for line in text.lines().filter(|l| !l.trim().is_empty()).skip(from) {
+        let j: Value = serde_json::from_str(line).expect("macro case json");
+        let ev = macro_case_event(&asm, &j);
+        writeln!(f, "{}", ev).unwrap();
+        f.flush().unwrap();
+    }
+}
+
+pub fn gen_macros(_asm: &Asm, sh: &mut Shards, path: &str, workdir: &str) {
+    let exe = std::env::current_exe().unwrap();
+    let outp = format!("{}/macro_events.ndjson", workdir);
+    let _ = std::fs::remove_file(&outp);
+    let cases: Vec<String> = std::fs::read_to_string(path).expect("macro case file").lines().filter(|l| !l.trim().is_empty()).map(|l| l.to_string()).collect();
+    let done = |p: &str| std::fs::read_to_string(p).map(|s| s.lines().count()).unwrap_or(0);
+    let mut from = 0usize;
+    while from < cases.len() {
+        let mut child = std::process::Command::new(&exe).arg("macros").arg(path).arg(&outp).arg(from.to_string())
+            .stdout(std::process::Stdio::null()).stderr(std::process::Stdio::null()).spawn().unwrap();
+        // watchdog: a case that makes no progress for 30 s is a hang
+        let mut last = done(&outp);
+        let mut last_t = std::time::Instant::now();
+        let mut hung = false;
+        let status = loop {
+            match child.try_wait() {
+                Ok(Some(st)) => break st.code().unwrap_or(-1),
+                Ok(None) => {
+                    let n = done(&outp);
+                    if n != last { last = n; last_t = std::time::Instant::now(); }
+                    if last_t.elapsed() > std::time::Duration::from_secs(30) {
+                        hung = true;
+                        let _ = child.kill();
+                        let _ = child.wait();
+                        break -2;
+                    }
+                    std::thread::sleep(std::time::Duration::from_millis(20));
+                }
+                Err(_) => break -3,
+            }
+        };
+        let n = done(&outp);
+        if n >= cases.len() {
+            break;
+        }
+        // the child died on case number n: record that and go on with the next one
+        let j: Value = serde_json::from_str(&cases[n]).unwrap();
+        let ev = json!({"ev":"macro","err":j["err"],"macro_ok":false,"ref_ok":false,"same":false,"src":"","macro_code":[],"ref_code":[],
+                        "diag":format!("child process {} on this case (exit status {})", if hung { "hung" } else { "aborted" }, status),"aborted":true,"case":j});
+        use std::io::Write;
+        let mut f = std::fs::OpenOptions::new().create(true).append(true).open(&outp).unwrap();
+        writeln!(f, "{}", ev).unwrap();
+        from = n + 1;
+    }
+    for line in std::fs::read_to_string(&outp).unwrap_or_default().lines() {
+        let ev: Value = serde_json::from_str(line).unwrap();
+        let err = ev["err"].as_str().unwrap_or("").to_string();
+        sh.count(&format!("macro-case:{}", if err.is_empty() { "expands" } else { &err }), 1);
+        sh.unit(&[ev]);
+    }
+    let _ = std::fs::remove_file(&outp);
 }
 
 /// a chain of `depth` macros, each using the next; run in a child process (`vh chain N`) because a
@@ -884,5 +944,167 @@ pub fn gen_chains(sh: &mut Shards, depths: &[usize]) {
         sh.count("macro-chains", 1);
         sh.unit(&[json!({"ev":"chain","depth":d,"status":status,"timeout":timeout,"ok":res.get("ok").and_then(|x| x.as_bool()).unwrap_or(false),
                          "same":res.get("same").and_then(|x| x.as_bool()).unwrap_or(false),"err":res.get("err").cloned().unwrap_or(json!("")),"ms":t0.elapsed().as_millis() as u64})]);
+    }
+}
+
+// ---------------------------------------------------------------------------------------------
+// C19: machines and parser objects do not leak state
+// ---------------------------------------------------------------------------------------------
+const GARBAGE: [&str; 8] = ["mov ax", "???", "add al, word [bx]", "jmp", "", "mov ax,, 1", "print nothing", "call 5"];
+
+/// (line, ast json, idx, context) for one abstract instruction; "invalid" = a line no grammar accepts
+fn line_for(asm: &Asm, v: &Value, k: usize) -> (String, Value, usize, emulator_8086_lib::InterpreterContext) {
+    if v["cls"] == "invalid" {
+        let ctx = emulator_8086_lib::InterpreterContext { fn_map: Default::default(), label_map: Default::default(), call_stack: Vec::new() };
+        return (GARBAGE[k % GARBAGE.len()].to_string(), json!({"cls":"invalid"}), 0, ctx);
+    }
+    let ins = ins_from_json(v);
+    let (a, idx, _src) = assemble_ins(asm, &ins, &Spelling::default()).expect("stream instruction must assemble");
+    (a.out.code[idx].clone(), ins.to_json(), idx, a.ictx)
+}
+
+fn stream_regs(which: usize) -> (Regs, u16, i64) {
+    if which == 0 {
+        (Regs { ax: 4660, bx: 7, cx: 0, dx: 0, sp: 256, bp: 0, si: 0, di: 8, ip: 0, cs: 0, ds: 0, ss: 16, es: 32 }, 2, 5)
+    } else {
+        (Regs { ax: 65535, bx: 65534, cx: 0, dx: 0, sp: 0, bp: 0, si: 0, di: 65535, ip: 0, cs: 0, ds: 0, ss: 4096, es: 65535 }, 65535, 9)
+    }
+}
+
+fn step_event(o: StepObs, vm: usize, ast: &Value, idx: usize, line: &str) -> Value {
+    let mut ev = o.to_json();
+    ev["ev"] = json!("step");
+    ev["vm"] = json!(vm);
+    ev["ast"] = ast.clone();
+    ev["idx"] = json!(idx);
+    ev["line"] = json!(line);
+    ev["src"] = json!("");
+    ev
+}
+
+pub fn gen_c19(asm: &Asm, rng: &mut Rng, sh: &mut Shards, path: &str, thorough: bool) {
+    // a freshly created machine
+    for _ in 0..3 {
+        let vm = emulator_8086_lib::VM::new();
+        let nz = vm.mem.iter().filter(|b| **b != 0).count();
+        sh.count("newvm", 1);
+        sh.unit(&[json!({"ev":"newvm","regs":read_regs(&vm).to_json(),"flags":vm.arch.flag,"nonzero":nz})]);
+    }
+    // interleavings enumerated by TLC: two machines, ONE interpreter object; then each stream alone on fresh objects
+    let shared = emulator_8086_lib::Interpreter::new();
+    let mut ma = Mach::new();
+    let mut mb = Mach::new();
+    let text = std::fs::read_to_string(path).expect("schedule file");
+    for (n, line) in text.lines().enumerate() {
+        if line.trim().is_empty() {
+            continue;
+        }
+        let j: Value = serde_json::from_str(line).expect("schedule json");
+        let streams = [j["sa"].as_array().unwrap().clone(), j["sb"].as_array().unwrap().clone()];
+        let mut lines: Vec<Vec<(String, Value, usize, emulator_8086_lib::InterpreterContext)>> = Vec::new();
+        for (w, s) in streams.iter().enumerate() {
+            lines.push(s.iter().enumerate().map(|(k, v)| line_for(asm, v, k + w + n)).collect());
+        }
+        let mut evs: Vec<Value> = Vec::new();
+        let (ra, fa, sa) = stream_regs(0);
+        let (rb, fb, sb) = stream_regs(1);
+        let mut e0 = ma.reset(&ra, fa, sa, &[], &[]);
+        e0["vm"] = json!(0);
+        evs.push(e0);
+        let mut e1 = mb.reset(&rb, fb, sb, &[], &[]);
+        e1["vm"] = json!(1);
+        evs.push(e1);
+        let mut pos = [0usize, 0usize];
+        for w in j["schedule"].as_array().unwrap() {
+            let w = w.as_u64().unwrap() as usize;
+            let (ref l, ref ast, idx, ref mut ctx) = lines[w][pos[w]];
+            let m = if w == 0 { &mut ma } else { &mut mb };
+            let o = m.step_shared(&shared, idx, ctx, l);
+            evs.push(step_event(o, w, ast, idx, l));
+            pos[w] += 1;
+        }
+        sh.count("interleavings", 1);
+        sh.count("interleaved-steps", (evs.len() - 2) as u64);
+        sh.unit(&evs);
+        // solo runs on fresh objects (only for a sample: a fresh parser costs ~5 ms)
+        if n % (if thorough { 4 } else { 24 }) == 0 {
+            for w in 0..2 {
+                let fresh = emulator_8086_lib::Interpreter::new();
+                let mut m = Mach::new();
+                let (r, f, s) = stream_regs(w);
+                let mut evs = vec![m.reset(&r, f, s, &[], &[])];
+                for (k, v) in streams[w].iter().enumerate() {
+                    let (l, ast, idx, mut ctx) = line_for(asm, v, k + w + n);
+                    let o = m.step_shared(&fresh, idx, &mut ctx, &l);
+                    evs.push(step_event(o, 0, &ast, idx, &l));
+                }
+                sh.count("solo-runs-on-fresh-objects", 1);
+                sh.unit(&evs);
+            }
+        }
+    }
+    // a long-lived parser fed valid and invalid lines in random order: every valid line still means the same
+    let nseq = if thorough { 400 } else { 60 };
+    for _ in 0..nseq {
+        let regs = stress_regs(rng);
+        let mut evs = vec![ma.reset(&regs, rng.u16(), (rng.below(200)) as i64, &[], &[])];
+        let len = 4 + rng.below(12) as usize;
+        for k in 0..len {
+            if rng.chance(1, 3) {
+                let l = GARBAGE[rng.below(GARBAGE.len() as u64) as usize];
+                let mut ctx = emulator_8086_lib::InterpreterContext { fn_map: Default::default(), label_map: Default::default(), call_stack: Vec::new() };
+                let o = ma.step_shared(&shared, 0, &mut ctx, l);
+                evs.push(step_event(o, 0, &json!({"cls":"invalid"}), 0, l));
+            } else {
+                let kk = rng.below(19) as usize;
+                let (_, ins) = rand_any_ins(rng, kk);
+                if matches!(ins, Ins::Call { .. } | Ins::Ret | Ins::Jcc { .. }) {
+                    continue;
+                }
+                if let Ok((mut a, idx, _)) = assemble_ins(asm, &ins, &Spelling::default()) {
+                    let line = a.out.code[idx].clone();
+                    let o = ma.step_shared(&shared, idx, &mut a.ictx, &line);
+                    evs.push(step_event(o, 0, &ins.to_json(), idx, &line));
+                }
+            }
+            let _ = k;
+        }
+        sh.count("mixed-valid-invalid-sequences", 1);
+        sh.unit(&evs);
+    }
+    // concurrent threads: private machines, one shared interpreter object
+    let nthreads = 8;
+    let per = if thorough { 600 } else { 120 };
+    let seeds: Vec<u64> = (0..nthreads).map(|_| rng.next()).collect();
+    let shared_ref = &shared;
+    let results: Vec<Vec<Value>> = std::thread::scope(|s| {
+        let hs: Vec<_> = seeds.iter().map(|sd| {
+            let sd = *sd;
+            s.spawn(move || {
+                let asm = Asm::new();
+                let mut rng = Rng(sd);
+                let mut m = Mach::new();
+                let regs = stress_regs(&mut rng);
+                let mut evs = vec![m.reset(&regs, rng.u16(), rng.below(200) as i64, &[], &[])];
+                for _ in 0..per {
+                    let kk = rng.below(19) as usize;
+                    let (_, ins) = rand_any_ins(&mut rng, kk);
+                    if matches!(ins, Ins::Call { .. } | Ins::Ret | Ins::Jcc { .. }) {
+                        continue;
+                    }
+                    if let Ok((mut a, idx, _)) = assemble_ins(&asm, &ins, &Spelling::default()) {
+                        let line = a.out.code[idx].clone();
+                        let o = m.step_shared(shared_ref, idx, &mut a.ictx, &line);
+                        evs.push(step_event(o, 0, &ins.to_json(), idx, &line));
+                    }
+                }
+                evs
+            })
+        }).collect();
+        hs.into_iter().map(|h| h.join().unwrap()).collect()
+    });
+    for evs in results {
+        sh.count("concurrent-thread-steps", (evs.len() - 1) as u64);
+        sh.unit(&evs);
     }
 }
